@@ -156,6 +156,21 @@ def matrix_cases(rng, variants=1):
     return cases
 
 
+def closefail_cases():
+    """Close whose last metadata write fails, followed by every gated operation, then a working close"""
+    pre = [E("create"), E("open"), E("setmode", mode="RW"), E("write", id=1), E("snapshot"), E("write", id=2), E("snapshot"),
+           E("write", id=3), E("snapshot"), E("write", id=4)]
+    tails = [
+        [E("setrev", v=4242)], [E("prepremove")], [E("write", id=9)],
+        [E("setrev", v=7), E("prepremove"), E("write", id=9)],
+    ]
+    out = []
+    for t in tails:
+        out.append(pre + [E("closefail")] + t + [E("close"), E("open"), E("setmode", mode="RW"), E("write", id=10)])
+    out.append([E("create"), E("closefail"), E("open"), E("closefail"), E("close")])
+    return out
+
+
 def attach_cases():
     base = [E("create")]
     return [
@@ -173,7 +188,7 @@ MODE = {"RW": "RW", "WO": "WO", "INIT": "INIT", "CLOSED": "CLOSED"}
 STATE = {"initial": "SInitial", "open": "SOpen", "closed": "SClosed", "dirty": "SDirty",
          "rebuilding": "SRebuilding", "error": "SError"}
 ACT = {a: "A" + a[0].upper() + a[1:] for a in ACTIONS}
-ENG = {"create": "OCreate", "open": "OOpen", "close": "OClose", "crash": "OCrash", "read": "ORead",
+ENG = {"closefail": "OCloseFail", "create": "OCreate", "open": "OOpen", "close": "OClose", "crash": "OCrash", "read": "ORead",
        "snapshot": "OSnapshot", "remove": "ORemove", "prepremove": "OPrepRemove", "reload": "OReload",
        "revert": "ORevert", "setcheckpoint": "OSetCheckpoint"}
 
